@@ -227,6 +227,59 @@ theorem C08.caught_up (tm0 : Timing) (hv : tm0.valid) (hc : tm0.isCyclic = false
   · have : ((q.toNat : Nat) : Int) = q := Int.toNat_of_nonneg hq0
     rw [this, Int.mul_comm]; omega
 
+/-! ### `delay=False`: the first run belongs to `start`, afterwards nothing is lost either -/
+
+/-- a `delay=False` job past its first run and a `delay=True` job with the same timers plan alike -/
+structure SamePlan (j j' : Job) : Prop where
+  timers : j.timers = j'.timers
+  pending : j.pending = j'.pending
+  stop : j.stop = j'.stop
+  skip : j.skip = false ∧ j'.skip = false
+  delay : j.delay = false ∧ j'.delay = true
+  att : 1 ≤ j.attempts
+
+theorem SamePlan.due (j j' : Job) (h : SamePlan j j') : j.due = j'.due := by
+  obtain ⟨h1, h2, _, _, ⟨hd, hd'⟩, ha⟩ := h
+  have : (j.attempts == 0) = false := by simp; omega
+  simp [Job.due, Job.pendingTimer, hd, hd', this, h1, h2]
+
+theorem SamePlan.run (j j' : Job) (h : SamePlan j j') (r : DT) (b b' : Bool) :
+    SamePlan (j.run r b) (j'.run r b') := by
+  obtain ⟨h1, h2, h3, ⟨hs, hs'⟩, ⟨hd, hd'⟩, ha⟩ := h
+  have hne : (j.attempts + 1 == 1) = false := by simp; omega
+  refine ⟨?_, ?_, h3, ⟨hs, hs'⟩, ⟨hd, hd'⟩, ?_⟩
+  · simp [Job.run, Job.calcNext, Job.exec1, hs, hs', hd, hd', hne, h1, h2]
+  · simp [Job.run, Job.calcNext, Job.exec1, hs, hs', hd, hd', hne, h1, h2]
+  · simp [Job.run, Job.calcNext, Job.exec1]
+
+theorem SamePlan.runs (refs : List DT) : ∀ (j j' : Job), SamePlan j j' → (j.runs refs).2 = (j'.runs refs).2 := by
+  induction refs with
+  | nil => intro j j' _; rfl
+  | cons r rs ih =>
+      intro j j' h
+      simp only [Job.runs]
+      rw [SamePlan.due j j' h, ih _ _ (SamePlan.run j j' h r false false)]
+
+/-- **`delay=False` loses nothing**: for every job type (batched or not) and whatever the poll
+    instants - in particular however late the first poll comes - the first invocation belongs to
+    `start` itself and the following ones consume exactly the due instants of the same job created
+    with `delay=True` (for which `none_lost_single` / `C09.union_enumeration` apply). Holds after
+    the fix: commit for defect D1; the seeded change that re-introduces a time test instead of the
+    first-run test falsifies it. -/
+theorem C08.none_lost_nodelay (tms : List Timing) (start : DT) (stop : Option DT) (m : Int)
+    (r : DT) (refs : List DT) :
+    ((Job.build tms start stop false false m).runs (r :: refs)).2 =
+      start.inst :: ((Job.build tms start stop true false m).runs refs).2 := by
+  have h0 : SamePlan ((Job.build tms start stop false false m).run r) (Job.build tms start stop true false m) := by
+    refine ⟨?_, ?_, rfl, ⟨rfl, rfl⟩, ⟨rfl, rfl⟩, ?_⟩
+    · simp [Job.run, Job.calcNext, Job.exec1, Job.build]
+    · simp [Job.run, Job.calcNext, Job.exec1, Job.build]
+    · simp [Job.run, Job.calcNext, Job.exec1, Job.build]
+  simp only [Job.runs]
+  rw [SamePlan.runs refs _ _ h0]
+  simp [Job.due, Job.build]
+
+
 /-- the Bool twin `skipDueB` evaluated by the driver on the implementation's due times IS the
     skip_missing statement (occurrence of one of the times, not earlier than `t`, nothing skipped) -/
 theorem C08.skipDueB_iff (tms : List Timing) (hv : ∀ tm ∈ tms, tm.valid ∧ tm.isCyclic = false) (t g due : Int) :
